@@ -198,21 +198,24 @@ class XMLWriter:
         # calculate the data before opening the file in case we get any exception
         data = str(self)
 
+        if not local_style and not custom_template:
+            header = "%s\n%s\n" % (XML_HEADER, EXTERNAL_STYLE_HEADER)
+        else:
+            header = "%s\n%s\n" % (XML_HEADER, INFILE_STYLE_HEADER)
+
+            template = INFILE_TEMPLATE_WRAPPER % INFILE_STYLE_TEMPLATE
+            if custom_template:
+                template = INFILE_TEMPLATE_WRAPPER % custom_template
+
+            replace = """<odML version="%s">""" % FORMAT_VERSION
+            replacement = """<odML version="%s">\n%s\n""" % (FORMAT_VERSION, template)
+            data = data.replace(replace, replacement)
+
+        # The same goes for text the file cannot hold, e.g. in a custom template.
+        data = header + data
+        data.encode("utf-8")
+
         with open(filename, "w", encoding = "utf-8") as file:
-            file.write("%s\n" % XML_HEADER)
-            if not local_style and not custom_template:
-                file.write("%s\n" % EXTERNAL_STYLE_HEADER)
-            else:
-                file.write("%s\n" % INFILE_STYLE_HEADER)
-
-                template = INFILE_TEMPLATE_WRAPPER % INFILE_STYLE_TEMPLATE
-                if custom_template:
-                    template = INFILE_TEMPLATE_WRAPPER % custom_template
-
-                replace = """<odML version="%s">""" % FORMAT_VERSION
-                replacement = """<odML version="%s">\n%s\n""" % (FORMAT_VERSION, template)
-                data = data.replace(replace, replacement)
-
             file.write(data)
 
 
